@@ -497,6 +497,8 @@ class Exec(Path):
         fn = self.func_stack[-1]
         label = f"loop{k}"
         invs = spec.get("invariant", [])
+        for gname, gexpr in spec.get("ghost_init", {}).items():
+            self.env[gname] = self.eval_contract_expr(gexpr, want_bool=False)     # ghost accumulator
         # 1. establish
         for j, inv in enumerate(invs):
             props, lab, expr = self._clause(inv, fn)
@@ -546,6 +548,8 @@ class Exec(Path):
                 return
             except CtlContinue:
                 pass
+            for gname, gexpr in spec.get("ghost_step", {}).items():
+                self.env[gname] = self.eval_contract_expr(gexpr, want_bool=False)
             for j, inv in enumerate(invs):
                 props, lab, expr = self._clause(inv, fn)
                 self.oblige(f"{label}:{lab or j}", "loop-preserve", self.eval_contract_expr(expr), props)
@@ -601,6 +605,8 @@ class Exec(Path):
             for x in ast.walk(s.target):
                 if isinstance(x, ast.Name):
                     names.add(x.id)
+        for gname in spec.get("ghost_init", {}):
+            names.add(gname)
         extra = spec.get("modifies", [])
         for e in extra:
             if "." in e or "[" in e:
